@@ -13,7 +13,8 @@ namespace Driver
 open HW.Wire
 
 def pidPool : List Pid :=
-  [⟨"n1:4000", "a"⟩, ⟨"n1:4000", "b"⟩, ⟨"n2:4000", "a"⟩, ⟨"ab", "c"⟩, ⟨"a", "bc"⟩, ⟨"", "abc"⟩, ⟨"abc", ""⟩, ⟨"n1:4000", "a/b"⟩]
+  [⟨"n1:4000", "a"⟩, ⟨"n1:4000", "b"⟩, ⟨"n2:4000", "a"⟩, ⟨"ab", "c"⟩, ⟨"a", "bc"⟩, ⟨"", "abc"⟩, ⟨"abc", ""⟩, ⟨"n1:4000", "a/b"⟩,
+   ⟨"n/a", "w/1"⟩, ⟨"n", "a/w/1"⟩]
 
 def payloadType (p : Nat) : String :=
   match p with
